@@ -502,6 +502,10 @@ def frequency_axes(repo, rep):
 
 
 def run(repo, rep, tier):
+    rep.rule("R-C13-18", "(shared with C08) spectra of later TRIAXYS files are re-gridded with ZERO energy outside their own frequency range (np.interp left = right = 0): "
+                         "a later file never shows energy at frequencies it does not contain")
+    from .c08 import interp_zero_fill as _izf
+    rep.floor("R-C13-18", "np.interp calls in interp_spec", _izf(repo, rep, "R-C13-18"), 2)
     frequency_axes(repo, rep)
     rep.rule("R-C13-10", "every parameter of the functions behind this property is read (file readers): none is accepted and then ignored, and no control parameter (cutoff, limit, tolerance, window, count, switch) is replaced by another value before use (coercion and default filling aside)")
     from .shared import unused_parameters
